@@ -15,6 +15,7 @@
 """
 from __future__ import annotations
 
+import random
 import re
 from pathlib import Path
 
@@ -111,7 +112,7 @@ def _start_of(disk, n):
     return ("legacy", disk["uv"])
 
 
-def _model_schedules(g, limit):
+def _model_schedules(g, limit, rng):
     """Project covering paths of the crash model's state graph onto (start, [run | crash@pc,v ...])."""
     out, seen = [], set()
     for path in tlc.covering_paths(g, max_len=200):
@@ -135,8 +136,10 @@ def _model_schedules(g, limit):
             continue
         seen.add(key)
         out.append((start, sched))
-        if len(out) >= limit:
-            break
+    out.sort(key=repr)
+    if len(out) > limit:
+        rng.shuffle(out)
+        out = sorted(out[:limit], key=repr)
     return out
 
 
@@ -158,8 +161,11 @@ def run(chk):
     def _tlc(job):
         name, dump, ignore = job
         d = chk.work / ("g_" + name) if dump else None
+        # the dumped run is single-worker with a fixed fingerprint polynomial: state ids and edge order (and so
+        # the schedules derived from the graph) are the same in every run
         return tlc.run(SPECS / "stores/MC_Migrations.tla", _cfg(chk, name, n, idem), workdir=chk.work / ("tlc_" + name),
-                       deadlock=False, dump=d, workers=2, coverage=ignore is not None)
+                       deadlock=False, dump=d, workers=1 if dump else 2, coverage=ignore is not None,
+                       extra=("-fp", "0"))
 
     with ThreadPoolExecutor(max_workers=4) as ex:
         results = list(ex.map(_tlc, runs))
@@ -269,7 +275,7 @@ def run(chk):
     # 2c. crash schedules enumerated by TLC, concretised to statement indices of the real run
     n_model = 0
     if g is not None:
-        for (kind, k), sched in _model_schedules(g, chk.pick(150, 2000)):
+        for (kind, k), sched in _model_schedules(g, chk.pick(150, 2000), random.Random(chk.seed)):
             start = (kind, k, "-" if kind != "legacy" else "scripts")
             tr, db = new_trace(start, "newconn")
             try:
